@@ -298,13 +298,38 @@ def log_uniform(rng, lo, hi):
     return math.exp(rng.uniform(math.log(lo), math.log(hi)))
 
 
-def draw_value(rng, kind: str, unit: str, dtype: str, ranges) -> float | int:
+INT_MAX = {'int32': 2 ** 31 - 1, 'int64': 10 ** 15}
+#: (kernel, argument) pairs whose integer operand the UNCHANGED code squares in integer arithmetic (`x ** 2` on the raw
+#: operand): there the square must fit the type, for every other integer operand the code converts to floating point first
+#: and the whole range of the type (int32: 2^31-1, int64: 1e15 < 2^53) is legitimate input
+INT_SQUARED_RAW = {
+    ('energy_from_wavelength', 'wavelength'),
+    ('energy_transfer_direct_from_tof', 'L2'),
+    ('energy_transfer_indirect_from_tof', 'L1'),
+}
+
+
+def int_cap(kernel_name: str, arg: str, dtype: str, result_single: bool):
+    """largest integer value to draw for this operand, or None for the historic small integers (cells with a float32
+    result, where a huge integer operand overflows float32 legitimately)"""
+    if result_single or dtype not in INT_MAX:
+        return None
+    if (kernel_name, arg) in INT_SQUARED_RAW:
+        return 46340 if dtype == 'int32' else 3_037_000_499  # floor(sqrt(2^31-1)), floor(sqrt(2^63-1))
+    return INT_MAX[dtype]
+
+
+def draw_value(rng, kind: str, unit: str, dtype: str, ranges, int_max=None) -> float | int:
     """a value of quantity `kind` expressed in `unit`, of element type `dtype`.  Floats: log-uniform physical
-    magnitude over `ranges[kind]`, boundary angles over-weighted.  Integers: small numbers *in the given unit*
-    (their squares fit the integer type)."""
+    magnitude over `ranges[kind]`, boundary angles over-weighted.  Integers *in the given unit*: with `int_max` 60 %
+    log-uniform over 1..int_max (20 % of those exactly at the top of the range), else small numbers 1..2000."""
     if dtype in ('int64', 'int32'):
         if kind == 'angle':
             return rng.randint(1, 180) if unit == 'deg' else rng.randint(1, 3)
+        if int_max and rng.random() < 0.6:
+            if rng.random() < 0.2:
+                return int_max - rng.randint(0, 3)
+            return max(1, int(math.exp(rng.uniform(0.0, math.log(int_max)))))
         return rng.choice([1, 2, 3, 5, 7]) if rng.random() < 0.2 else rng.randint(1, 2000)
     lo, hi = ranges[kind]
     if kind == 'angle':
